@@ -34,6 +34,8 @@ def conds(tier):
                     "each root with every third leaf, second argument derived" if q else "all roots x all leaves x 8 second arguments")),
         xh.Cond(M, "c02_this", t(120, 900), examples=[ex(q="Val", shape=1), ex(q="Thisx", shape=3), ex(q="w", shape=2)],
                 bounds="len(q)<=6, 4 shapes"),
+        xh.Cond(M, "c02_templated_instantiations", t(120, 600), kind="shape-bounded", examples=[ex(inst=0, shape=0, this=1), ex(inst=2, shape=3, this=0), ex(inst=5, shape=7, this=1)],
+                bounds="6 templated instantiation types (qualifier repeated in / suffix of their arguments) x 9 uses (bare, scoped, nested) x with / without the class handed over"),
         xh.Cond(M, "c02_qualified_twin", t(150, 900), examples=[ex(p="T"), ex(p="Point"), ex(p="lst")],
                 bounds="len(p)<=%d; a qualified type named like the parameter at 12 positions (top level, depth 1-2, templated, pointer, pair)" % (2 if q else 3)),
         xh.Cond(M, "c02_shadowed_parameter", t(200, 1200), examples=[ex(p="T", q="Key"), ex(p="V", q="Value")],
